@@ -38,7 +38,8 @@ def run(ix, R):
 
 def _run(ix, R):
     m = ix.module(PR)
-    R.check('1.scipy', 'TAB', PR, '`stats` is scipy.stats', m.imports.get('stats') == ('scipy.stats', None),
+    # `import scipy.stats as stats` and `from scipy import stats` bind the same module object
+    R.check('1.scipy', 'TAB', PR, '`stats` is scipy.stats', m.imports.get('stats') in (('scipy.stats', None), ('scipy', 'stats')),
             key='stats -> %s' % (m.imports.get('stats'),), detail='stats is %s' % (m.imports.get('stats'),))
     # ---- Uniform
     site = PR + '::Uniform.set_bounds'
@@ -51,6 +52,9 @@ def _run(ix, R):
         want = {'self._low_bounds': spec(fl, 'min(*b)', pe), 'self._up_bounds': spec(fl, 'max(*b)', pe),
                 'self._scale': spec(fl, 'self._up_bounds - self._low_bounds')}
         alt = {'self._low_bounds': spec(fl, 'min(b)', pe), 'self._up_bounds': spec(fl, 'max(b)', pe)}
+        if 'self._low_bounds' in st and 'self._up_bounds' in st:
+            # the width written with the two values themselves rather than with the attributes that hold them
+            alt['self._scale'] = spec(fl, 'U - L', {'U': st['self._up_bounds'].value, 'L': st['self._low_bounds'].value})
         for k, w in want.items():
             if k not in st or not (fl.tab.equal(st[k].value, w) or
                                    (k in alt and fl.tab.equal(st[k].value, alt[k]))):
